@@ -14,14 +14,14 @@ Record etaArgs := { e_sys : etaSys; e_gs : Q; e_ge : Q; e_area : Q }.
 (* error classes: the exceptions of the code plus the model's own fuel exhaustion *)
 Inductive etaErr :=
 | OutOfFuel        (* model only: doubling loop / binary search ran out of fuel *)
-| NoneSolution     (* binary_search returned None: `solution[0]` would raise TypeError (line 208) *)
+| NoneSolution     (* binary_search returned None: `solution[0]` would raise TypeError (line 211) *)
 | ETimesZero       (* make_extended_trapezoid.py:85 *)
 | ETimesOrder      (* make_extended_trapezoid.py:88 *)
 | ERaster          (* make_extended_trapezoid.py:91 / :119 *)
 | EFirst           (* make_extended_trapezoid.py:94 *)
 | ESlew            (* make_extended_trapezoid.py:137 *)
 | EAmp             (* make_extended_trapezoid.py:139 *)
-| EArea.           (* line 229-230 *)
+| EArea.           (* lines 241-242 *)
 Inductive result (A : Type) := OK (x : A) | Err (e : etaErr).
 Arguments OK {A} x.
 Arguments Err {A} e.
@@ -103,7 +103,7 @@ Fixpoint argmin_first (best : option cand) (l : list cand) : option cand :=
 Definition find_solution (a : etaArgs) (d : Z) : option cand :=
   argmin_first None (filter (valid a) (map (eval_cand a d) (filter (flat_ok d) (cands a d)))).
 
-(* ---- the search (lines 168-205) ---- *)
+(* ---- the search (lines 168-217 of the repaired source) ---- *)
 
 Definition min_duration (a : etaArgs) : Z := Z.max (ramp_cnt a (e_ge a) (e_gs a)) eta_min_dur.
 Definition lin_max (a : etaArgs) : Z :=
@@ -145,7 +145,9 @@ Fixpoint bsearch (a : etaArgs) (lo hi : Z) (fuel : nat) : result (Z * cand) :=
       end
   end.
 
-Definition search (fd fb : nat) (a : etaArgs) : result (Z * cand) :=
+(* the search as it was before repair commit 7df2246 (no rescan after the binary search); kept as
+   [search_old] / [eta_old] for the refutation witness in Props/C12.v *)
+Definition search_old (fd fb : nat) (a : etaArgs) : result (Z * cand) :=
   let mn := min_duration a in
   let mx := lin_max a in
   match linear_search a mn (Z.to_nat (mx - mn + 1)) with
@@ -154,6 +156,38 @@ Definition search (fd fb : nat) (a : etaArgs) : result (Z * cand) :=
     match doubling a mx fd with
     | None => Err OutOfFuel
     | Some hi => bsearch a (hi / 2)%Z hi fb
+    end
+  end.
+
+(* `shortest_conceivable = int(abs(area) / ((max_grad + 1e-8) * raster_time))`; int() of a non-negative
+   float truncates = floor *)
+Definition shortest_conceivable (a : etaArgs) : Z :=
+  Qfloor (Qabs (e_area a) / ((mgrad a + eta_sc_tol) * rast a)).
+
+(* the rescan `for duration in range(max(linear_search_end + 1, shortest_conceivable), sum(solution[:3]))`:
+   first duration with a solution, else the result of the binary search *)
+Definition rescan (a : etaArgs) (dc : Z * cand) : Z * cand :=
+  let c := snd dc in
+  let start := Z.max (lin_max a + 1) (shortest_conceivable a) in
+  let stop := (c_up c + c_flat c + c_down c)%Z in
+  match linear_search a start (Z.to_nat (stop - start)) with
+  | Some dc' => dc'
+  | None => dc
+  end.
+
+Definition search (fd fb : nat) (a : etaArgs) : result (Z * cand) :=
+  let mn := min_duration a in
+  let mx := lin_max a in
+  match linear_search a mn (Z.to_nat (mx - mn + 1)) with
+  | Some dc => OK dc
+  | None =>
+    match doubling a mx fd with
+    | None => Err OutOfFuel
+    | Some hi =>
+      match bsearch a (hi / 2)%Z hi fb with
+      | Err e => Err e
+      | OK dc => OK (rescan a dc)
+      end
     end
   end.
 
@@ -199,7 +233,7 @@ Definition make_ext_trap (s : etaSys) (times amps : list Q) : result etaGrad :=
     then Err EAmp                                                                     (* :139 *)
     else OK {| g_tt := tt; g_wave := amps; g_area := Qred area; g_delay := delay |}.
 
-(* ---- lines 207-232 ---- *)
+(* ---- lines 219-244 ---- *)
 Record etaOut := { o_grad : etaGrad; o_dur : Z; o_cand : cand }.
 
 Definition build_times (a : etaArgs) (c : cand) : list Q :=
@@ -219,13 +253,19 @@ Definition finish (a : etaArgs) (d : Z) (c : cand) : result etaOut :=
   match make_ext_trap (e_sys a) (build_times a c) (build_amps a c) with
   | Err e => Err e
   | OK g =>
-    if Qltb (Qabs (g_area g - e_area a)) eta_area_tol                                  (* :229 *)
+    if Qltb (Qabs (g_area g - e_area a)) eta_area_tol                                  (* :241 *)
     then OK {| o_grad := g; o_dur := d; o_cand := c |}
     else Err EArea
   end.
 
 Definition eta (fd fb : nat) (a : etaArgs) : result etaOut :=
   match search fd fb a with
+  | Err e => Err e
+  | OK (d, c) => finish a d c
+  end.
+
+Definition eta_old (fd fb : nat) (a : etaArgs) : result etaOut :=
+  match search_old fd fb a with
   | Err e => Err e
   | OK (d, c) => finish a d c
   end.
